@@ -494,8 +494,11 @@ def check_form(spec: dict) -> dict:
         possible = [fix for fix in ALL_FIXES if fix in model.input_classes]
         for size in range(1, len(possible) + 1):
             for fixes in itertools.combinations(possible, size):
-                with repaired(fixes):
-                    results = run_all()
+                try:
+                    with repaired(fixes):
+                        results = run_all()
+                except Violation:
+                    continue    # this set of repairs does not even run on the case: it explains nothing
                 if not judge_all(results):
                     explained = list(fixes)
                     break
@@ -561,7 +564,7 @@ def _describe(spec: dict, got: list, model: Reference, repeated_member: bool) ->
     return {"nontrivial": nontrivial, "classes": classes}
 
 
-SUBCHECKS = {"form": check_form, "form_enum": check_form}
+SUBCHECKS = {"form": check_form, "form_enum": check_form, "form_twins_enum": check_form}
 
 
 # Which clauses a known root cause can break (failure mode); the input class is Reference.input_classes, and the
@@ -778,8 +781,37 @@ def enum_cases(plan: list):
     return cases
 
 
+def enum_twin_cases(cells: int):
+    """ three chemical-hybrid pairs: every multiset of three shapes (neighbourhood 0 or 1 cell) whose core holds
+        an even cell, each shape used by two protoclusters of different products (which therefore share the
+        core gene of that cell); gives several hybrid candidates that overlap, interleave or stand apart """
+    def cases():
+        length = 3 * cells
+        products = [f"p{i}" for i in range(6)]
+        genes = [{"name": f"g{k}", "loc": {"parts": [[3 * k, 3 * k + 3]], "strand": 1},
+                  "core_for": products if k % 2 == 0 else []} for k in range(cells)]
+        indices = list(range(6))
+        perms = [indices, indices[::-1], [3, 0, 5, 2, 4, 1]]
+        for circular in (False, True):
+            shapes = []
+            for shape in _enum_shapes(cells, circular):
+                core_bases = ring.bases(shape["core"])
+                extra = len(ring.bases(shape["loc"])) - len(core_bases)
+                if extra <= 6 and any(ring.contains(shape["core"], gene["loc"]) and gene["core_for"] for gene in genes):
+                    shapes.append(shape)
+            for combo in itertools.combinations_with_replacement(range(len(shapes)), 3):
+                protos = []
+                for number in combo:
+                    for _ in range(2):
+                        protos.append(dict(shapes[number], product=products[len(protos)]))
+                yield {"L": length, "circular": circular, "genes": genes, "protos": protos, "perms": perms}
+    return cases
+
+
 def run(ctx) -> None:
     plan = ctx.pick([(7, 2), (5, 3)], [(8, 2), (6, 3), (6, 4)])
     ctx.extra["enumeration_plan"] = [{"cells": cells, "protoclusters": count} for cells, count in plan]
     ctx.enum("form_enum", enum_cases(plan), shards=ctx.pick(8, 16), stop_after=3)
+    ctx.extra["twin_enumeration_cells"] = ctx.pick(7, 10)
+    ctx.enum("form_twins_enum", enum_twin_cases(ctx.pick(7, 10)), shards=ctx.pick(8, 16), stop_after=3)
     ctx.hyp("form", form_specs(), max_examples=ctx.pick(2000, 30000), shards=ctx.pick(8, 16))
